@@ -8,7 +8,11 @@ set -u
 export GOFLAGS=-mod=mod GOPROXY=off GOSUMDB=off GOTOOLCHAIN=local
 sd="$(cd "$1" && pwd)"; pid="$2"; tier="${3:-quick}"
 name="$(basename "$sd")"
-wt="/tmp/seedchk-$name-$$/repo"
+# one fixed scratch path (and -trimpath) so that Go's build cache is shared between runs instead of
+# growing by ~0.5 GB per scratch tree; runs are serialised by a lock
+exec 9>/tmp/seedchk.lock; flock 9
+wt="/tmp/seedchk/repo"
+git -C /repo worktree remove --force "$wt" 2>/dev/null; rm -rf /tmp/seedchk
 mkdir -p "$(dirname "$wt")"
 git -C /repo worktree add -q --detach "$wt" HEAD || exit 9
 cleanup() { git -C /repo worktree remove --force "$wt" 2>/dev/null; rm -rf "$(dirname "$wt")"; rm -rf /verif/.build/alt-$(echo "$wt" | cksum | cut -d' ' -f1); }
@@ -18,11 +22,11 @@ demo="$(dirname "$wt")/demo"; cp -r "$sd/demo" "$demo"
 sed -i "s|=> .*|=> $wt|" "$demo/go.mod"; cp "$wt/go.sum" "$demo/go.sum"
 race=""; grep -qi '"needs_race": *true' "$sd/meta.json" 2>/dev/null && race="-race"
 # (4) demo passes on the unchanged tree
-(cd "$demo" && go test $race -count=1 ./... ) >>"$log" 2>&1; demo_clean=$?
+(cd "$demo" && go test -trimpath $race -count=1 ./... ) >>"$log" 2>&1; demo_clean=$?
 git -C "$wt" apply "$sd/patch.diff" >>"$log" 2>&1 || { echo "$name: PATCH DOES NOT APPLY"; exit 1; }
-(cd "$wt" && go build ./... ) >>"$log" 2>&1 || { echo "$name: DOES NOT COMPILE"; exit 1; }
-(cd "$wt" && go test -vet=off -count=1 -timeout 25m ./... ) >"$sd/suite.log" 2>&1; suite=$?
-(cd "$demo" && go test $race -count=1 ./... ) >>"$log" 2>&1; demo_mut=$?
+(cd "$wt" && go build -trimpath ./... ) >>"$log" 2>&1 || { echo "$name: DOES NOT COMPILE"; exit 1; }
+(cd "$wt" && go test -trimpath -vet=off -count=1 -timeout 25m ./... ) >"$sd/suite.log" 2>&1; suite=$?
+(cd "$demo" && go test -trimpath $race -count=1 ./... ) >>"$log" 2>&1; demo_mut=$?
 out="$(dirname "$wt")/out"
 VERIF_OUT="$out" VERIF_REPO="$wt" /verif/run.sh "$pid" "$tier" >"$sd/ourcheck.log" 2>&1; ours=$?
 viol="$(grep -c '^VIOLATION' "$sd/ourcheck.log")"
